@@ -30,6 +30,8 @@ var registry = map[string]checkFn{
 	"C20": checkC20,
 	"C21": checkC21,
 	"C22": checkC22,
+	"C23": checkC23,
+	"C24": checkC24,
 	"C25": checkC25,
 	"C28": checkC28,
 	"C32": checkC32,
